@@ -8,6 +8,8 @@ import (
 	"fmt"
 	"go/token"
 	"go/types"
+
+	"golang.org/x/tools/go/ssa"
 	"strings"
 )
 
@@ -176,6 +178,71 @@ func (x *Exec) errIs(a, b VIface) Term {
 		x.vc.Assert(Implies(And(Eq(a.Tag, IntLit(0)), Neq(b.Tag, IntLit(0))), Not(t)))
 	}
 	return t
+}
+
+// errIsAt is errIs plus, for an *httpError receiver, one unfolding of errors.Is through
+// (*httpError).Unwrap: httpError has no Is method and its err field is only ever written by the
+// composite literal that allocates it (checked by httpErrImmutable), so
+// errors.Is(e, t) == (e == t || errors.Is(e.err, t)).
+func (x *Exec) errIsAt(st *State, a, b VIface) Term {
+	t := x.errIs(a, b)
+	if st == nil || !x.eng.httpErrImmutable() {
+		return t
+	}
+	stt, skey := structOf(x.eng.namedType(x.eng.home.Path(), "httpError"))
+	for i := 0; i < stt.NumFields(); i++ {
+		if stt.Field(i).Name() != "err" {
+			continue
+		}
+		inner, ok := x.loadField(st, a.Val, stt, skey, i).(VIface)
+		if !ok {
+			return t
+		}
+		it := x.errIs(inner, b)
+		key := "errIsH:" + t.S + "|" + it.S
+		if !x.vc.declared[key] {
+			x.vc.declared[key] = true
+			same := And(Eq(a.Tag, b.Tag), Eq(a.Val, b.Val))
+			x.vc.Assert(Implies(Eq(a.Tag, IntLit(x.httpErrTag())), Eq(t, Or(same, it))))
+		}
+	}
+	return t
+}
+
+func (e *Engine) httpErrImmutable() bool {
+	e.httpErrOnce.Do(func() {
+		e.httpErrImm = true
+		for _, fn := range e.funcs {
+			for _, b := range fn.Blocks {
+				for _, in := range b.Instrs {
+					st, ok := in.(*ssa.Store)
+					if !ok {
+						continue
+					}
+					fa, ok := st.Addr.(*ssa.FieldAddr)
+					if !ok {
+						continue
+					}
+					pt, ok := fa.X.Type().Underlying().(*types.Pointer)
+					if !ok {
+						continue
+					}
+					nm, ok := pt.Elem().(*types.Named)
+					if !ok || nm.Obj().Name() != "httpError" || nm.Obj().Pkg() != e.home {
+						continue
+					}
+					stt := nm.Underlying().(*types.Struct)
+					if stt.Field(fa.Field).Name() != "err" {
+						continue
+					}
+					if _, isAlloc := fa.X.(*ssa.Alloc); !isAlloc {
+						e.httpErrImm = false
+					}
+				}
+			}
+		}
+	})
+	return e.httpErrImm
 }
 
 func (x *Exec) connErrTag() int64 {
@@ -366,6 +433,9 @@ func init() {
 		e := x.freshErr("pf.err")
 		return VStruct{F: []Value{VTerm{f}, e}}, true
 	})
+	regModel("math.IsNaN", func(x *Exec, fr *Frame, st *State, a []Value, pos token.Pos, rt types.Type) (Value, bool) {
+		return VTerm{app(SBool, "fp.isNaN", tOf(a[0]))}, true
+	})
 	// ---- strings
 	regModel("strings.HasPrefix", func(x *Exec, fr *Frame, st *State, a []Value, pos token.Pos, rt types.Type) (Value, bool) {
 		return VTerm{x.hasPrefix(tOf(a[0]), tOf(a[1]))}, true
@@ -404,6 +474,12 @@ func init() {
 		x.vc.Assert(Implies(Ge(r, IntLit(0)), Eq(x.strAt(s, r), c)))
 		return VTerm{r}, true
 	})
+	regModel("strings.Count", func(x *Exec, fr *Frame, st *State, a []Value, pos token.Pos, rt types.Type) (Value, bool) {
+		s := tOf(a[0])
+		r := x.vc.Fresh("count", SInt)
+		x.vc.Assert(And(Ge(r, IntLit(0)), Le(r, Add(sLen(s), IntLit(1)))))
+		return VTerm{r}, true
+	})
 	regModel("net/textproto.CanonicalMIMEHeaderKey", func(x *Exec, fr *Frame, st *State, a []Value, pos token.Pos, rt types.Type) (Value, bool) {
 		t := x.canon(tOf(a[0]))
 		x.vc.strFacts(t)
@@ -428,7 +504,33 @@ func init() {
 		if !ok1 || !ok2 {
 			return nil, false
 		}
-		return VTerm{x.errIs(ea, eb)}, true
+		return VTerm{x.errIsAt(st, ea, eb)}, true
+	})
+	regModel("errors.As", func(x *Exec, fr *Frame, st *State, a []Value, pos token.Pos, rt types.Type) (Value, bool) {
+		ea, ok1 := a[0].(VIface)
+		tb, ok2 := a[1].(VIface)
+		if !ok1 || !ok2 {
+			return nil, false
+		}
+		addr, ok := x.boxedAddrs[tb.Val.S]
+		if !ok {
+			return nil, false
+		}
+		var found Term
+		switch typeKey(addr.ElemT) {
+		case "*connect.Error":
+			found = x.connRef(ea)
+		case "*vanguard.httpError":
+			found = x.httpRef(ea)
+		default:
+			return nil, false
+		}
+		okT := x.vc.Name(Neq(found, IntLit(0)), "as.ok")
+		// on success the target is set to the matching error, otherwise it is left unchanged
+		old := x.loadAddr(fr, st, addr, addr.ElemT, pos)
+		nv := x.mergeValues([]Value{VTerm{found}, old}, []Term{okT, TTrue}, addr.ElemT, "as.target")
+		x.storeAddr(fr, st, addr, nv, pos)
+		return VTerm{okT}, true
 	})
 	// ---- sync
 	for _, n := range []string{"(*sync.Mutex).Lock", "(*sync.Mutex).Unlock", "(*sync.RWMutex).Lock", "(*sync.RWMutex).Unlock"} {
